@@ -253,6 +253,9 @@ func short(s string) string {
 func (e *env) check(kind, name, input string, allc, toCoq, wantParse bool) {
 	e.wd.Beat(map[string]string{"kind": kind, "name": name, "input": short(input)})
 	key := kind + ":" + name
+	if strings.HasPrefix(kind, "corpus") {
+		key = "corpus:" + strings.TrimSuffix(name, ".txt") // the keys used in known_findings.json
+	}
 	fail := func(what string, got, want interface{}) {
 		e.rep.Fail(vh.Failure{Key: key, What: what, Input: map[string]interface{}{"kind": kind, "name": name, "allcomments_first": allc, "input": short(input), "input_hex_prefix": hex.EncodeToString([]byte(short(input)))}, Got: got, Want: want})
 		e.extra["fail:"+what]++
